@@ -248,7 +248,7 @@ class Prop:
             jid0 = re.sub(r'[^A-Za-z0-9_]', '_', c.fn)[:80] + '_' + hashlib.md5(ckey.encode()).hexdigest()[:6]
             if c.kind == 'R':
                 jobs.append({'kind': 'R', 'id': jid0, 'key': ckey, 'fn': c.fn, 'll': b.ll, 'sig': sig, 'requires': c.requires, 'ensures': ens,
-                             'timeout': c.timeout, 'timeout_s': c.timeout, 'workdir': wd})
+                             'timeout': c.timeout, 'timeout_s': c.timeout, 'workdir': wd, 'flags': list(c.flags)})
                 jobmeta[ckey] = (c, sig, ens, fnd)
                 continue
             rel_sigs = {n: self.builds[c.rel[0]].driver.shims[n].view_sig() for n in c.rel[1]} if getattr(c, 'rel', None) else None
